@@ -92,7 +92,7 @@ def run(tier, seed):
         return True, ""
     R.guard("eq=>hash-equal-and-not-ne", {"terms": "more than 16"}, many_terms)
     # exact Lagrange interpolation on non-dyadic rational data (no float may appear)
-    for pts in ([(F(-1), F(1, 3)), (F(0), F(2, 7)), (F(2), F(-5, 9))], [(F(1, 3), F(1)), (F(2, 3), F(4)), (F(5, 3), F(-2)), (F(3), F(1, 7))]):
+    for pts in ([(F(2, 3), F(-5, 7))], [(F(-1), F(1, 3)), (F(0), F(2, 7)), (F(2), F(-5, 9))], [(F(1, 3), F(1)), (F(2, 3), F(4)), (F(5, 3), F(-2)), (F(3), F(1, 7))]):
         def lagex():
             pl = lagrange.poly(pts)
             fn = lagrange.func(pts)
@@ -107,7 +107,7 @@ def run(tier, seed):
     R.guard("empty**0-is-1", {}, lambda: (pd_eq(pd_of(e ** 0), {0: 1}), "(x-x)**0 = %r" % pd_of(e ** 0)))
     R.guard("composition-into-zero", {}, lambda: (pd_eq(pd_of((x + 3)(e)), {0: 3}), "(x+3)(0 poly) = %r" % pd_of((x + 3)(e))))
     # Lagrange interpolation: rational abscissae, symbolic ordinates
-    for n in range(2, 5 if tier == "quick" else 6):
+    for n in range(1, 5 if tier == "quick" else 6):      # n == 1: the constant through the single point
         xs = [F(i * 3 + 1, 2) for i in range(n)]
         ys = [Sym.var("y%d" % i) for i in range(n)]
         pairs = list(zip(xs, ys))
